@@ -7,7 +7,7 @@ import math
 import numpy as np
 from hypothesis import strategies as st
 
-from vlib import core, e2e, roms, scen
+from vlib import core, e2e, roms, scen, sim
 
 PID = "C16"
 LEVEL = "exploration"
@@ -309,6 +309,11 @@ def e2e_oracle(case) -> core.CaseResult:
                          "default_values": {"lon": 0.0, "lat": 0.0}}
         if case["sub"]:
             conf["grid"]["subgrid"] = list(case["sub"])
+        if case["seed"] % 3 == 0:
+            # a user's IBM that asks the grid for lon/lat at the state's positions and then moves the particles
+            # a little with the in-place idiom state["X"] += ...
+            conf["ibm"] = {"module": str(sim.PLUG / "ibm_script.py"), "ask_lonlat": True, "wander": [0.05, -0.03]}
+            res.cls("ibm_asks_lonlat_and_moves_in_place")
         e2e.write_yaml(conf, d / "ladim.yaml")
         r = e2e.run_main(d / "ladim.yaml")
         if not res.check(r["status"] == "ok", "lonlat_run_fails",
